@@ -161,5 +161,4 @@ def explore(chk):
     chk.cov["distinct_nontrivial"] = chk.cov["states"]
     for c in ("C10.len", "C10.items", "C10.prefixes", "C10.values", "C10.get", "C10.getitem", "C10.longest"):
         chk.clause(c, checked=chk.cov["traces_validated_against_impl"], nontrivial=chk.cov["states"])
-    chk.sample({"ops": [["set", "", None, "str"], ["set", "ab", 1, "str"]], "queries": "len, items, prefixes, values, get/getitem/longest on all keys <= 4"})
     chk.assumptions.append("keys restricted to tokens {a,b,(c)}, values to {None,1,2}; hashable tokens only")
